@@ -56,7 +56,7 @@ var PVal = Cello(PVal, Instance(New, Probe_New, PVal_Del), Instance(Assign, PVal
 
 /* ------------------------------------------------------------------ oracle: one map per table variable */
 typedef struct ONode { char name[40]; uint64_t hash; int64_t val; uint64_t stamp; struct ONode* next; } ONode;
-#define NB 8192
+#define NB 65536
 typedef struct { ONode** b; size_t count; } OMap;
 static OMap omap[NT];
 static uint64_t epoch = 0;
@@ -303,7 +303,7 @@ int main(int argc, char** argv) {
     else { O("bad-op"); continue; }
     nops++;
     size_t nslots0 = t->nslots, nitems0 = t->nitems;
-    int small0 = t->nslots <= 5000;
+    int small0 = t->nslots <= 1300;
     uint64_t cs0 = small0 ? checksum(t, kind) : 0;
     var exc = NULL;
     if (strcmp(op, "set") == 0) {
@@ -391,11 +391,11 @@ int main(int argc, char** argv) {
         O("copy | %s", dump(t, kind, 0, 0, 1));
       }
     }
-    /* full verification: every op on small tables, on every rehash, otherwise every 64 ops */
+    /* full verification (O(nslots)): every op on small tables, on every rehash / assign / copy / resize / check, otherwise every max(64, nslots/4) ops */
     t = tabs[ti];
     if (strcmp(op, "check") != 0) {
       since_full[ti]++;
-      if (t->nslots <= FULL || t->nslots != nslots0 || since_full[ti] >= 64 || op[0] == 'a' || op[0] == 'c' || strcmp(op, "resize") == 0) { verify(tabs[ti], ti); since_full[ti] = 0; }
+      if (t->nslots <= FULL || t->nslots != nslots0 || since_full[ti] >= (t->nslots / 4 > 64 ? t->nslots / 4 : 64) || op[0] == 'a' || op[0] == 'c' || strcmp(op, "resize") == 0) { verify(tabs[ti], ti); since_full[ti] = 0; }
     }
     probe_ledger(tabs);
   }
